@@ -678,8 +678,16 @@ class RecurringPattern(Timeline[IvlOut], Generic[IvlOut]):
         while current_end > effective_start:
             chunk_start = max(effective_start, current_end - chunk_size)
 
-            # Fetch this chunk forward, then reverse
-            chunk = list(self._fetch_forward(chunk_start, current_end))
+            # Fetch this chunk forward, then reverse.  An occurrence belongs to the
+            # chunk that contains its start (the oldest chunk also takes the ones
+            # that began earlier and reach into the range), so one spanning a
+            # chunk edge, or starting exactly on it, is yielded once.
+            chunk = [
+                ivl
+                for ivl in self._fetch_forward(chunk_start, current_end)
+                if (ivl.start < current_end or current_end == end)
+                and (ivl.start >= chunk_start or chunk_start == effective_start)
+            ]
             yield from reversed(chunk)
 
             current_end = chunk_start
